@@ -72,6 +72,9 @@ type pathState struct {
 	obsVals  []iface
 	reachObs map[string][]string
 	known    []string
+	badger    map[string]*bdb // Badger model: databases by directory
+	badgerErr *value
+	tmpDirs   int
 }
 
 type machine struct {
@@ -126,6 +129,10 @@ func (m *machine) get(fr *frame, key ssa.Value) value {
 func (m *machine) global(g *ssa.Global) *value {
 	if r, ok := m.globals[g]; ok {
 		return r
+	}
+	if cell, ok := m.badgerGlobal(g); ok {
+		m.globals[g] = cell
+		return cell
 	}
 	// make sure the owning package is initialised
 	if g.Pkg != nil && !m.inited[g.Pkg] {
